@@ -33,14 +33,17 @@ where
     T: Hash + Eq + Clone + Ord + Display + Send + Sync,
     A: Clone + Send + Sync,
 {
-    let node_names_count = communities
-        .iter()
-        .flatten()
-        .filter(|n| graph.get_node((*n).clone()).is_some())
-        .count();
-    let sum_names = communities.iter().map(|hs| hs.len()).sum::<usize>();
-    let all_nodes_len = graph.get_all_nodes().len();
-    node_names_count == all_nodes_len && sum_names == all_nodes_len
+    // every member must be a node of the graph and must not appear in an earlier community
+    let mut seen: HashSet<&T> = HashSet::new();
+    for community in communities {
+        for n in community {
+            if graph.get_node(n.clone()).is_none() || !seen.insert(n) {
+                return false;
+            }
+        }
+    }
+    // ... and together the communities must contain every node
+    seen.len() == graph.get_all_nodes().len()
 }
 
 /**
